@@ -168,6 +168,44 @@ def total_and_deterministic(ctx, r):
         st.close()
 
 
+def dangling_references(ctx, r):
+    """well-formed lines about items the log never created (the creating line was lost in a merge, an id mistyped while resolving a conflict): an
+    edge from a ready task to nowhere, an edge from nowhere, a task under an unknown epic … every command still terminates with state or an error"""
+    st, v, trace = crash.build_state(ctx, r, 6 + r.n(8), binary=ctx.ergo, weights={"new_task": 50, "new_epic": 10, "set": 20, "sequence": 20})
+    try:
+        g = st.graph()
+        if "graph" not in g:
+            return
+        ready = oracles.ready_order(g["graph"], "")
+        todo = [t["id"] for t in g["graph"]["tasks"] if not t["is_epic"]]
+        if not todo:
+            return
+        live = ready[0] if ready else todo[0]
+        T = "2026-01-01T00:00:00Z"
+        kinds = {"edge to nowhere": [{"type": "link", "ts": T, "data": {"from_id": live, "to_id": "NOSUCH", "type": "depends"}}],
+                 "edge from nowhere": [{"type": "link", "ts": T, "data": {"from_id": "NOWHER", "to_id": live, "type": "depends"}}],
+                 "task under an unknown epic": [{"type": "new_task", "ts": T, "data": {"id": "ORPHAN", "uuid": "u", "epic_id": "NOEPIC", "state": "todo", "title": "orphan", "body": "", "created_at": T}},
+                                                {"type": "link", "ts": T, "data": {"from_id": "ORPHAN", "to_id": "NOSUCH", "type": "depends"}}],
+                 "moved to an unknown epic": [{"type": "epic", "ts": T, "data": {"id": live, "epic_id": "NOEPIC", "ts": T}}],
+                 "epic edge to nowhere": [{"type": "new_epic", "ts": T, "data": {"id": "EPICXX", "uuid": "u", "epic_id": "", "state": "todo", "title": "e", "body": "", "created_at": T}},
+                                          {"type": "link", "ts": T, "data": {"from_id": "EPICXX", "to_id": "NOEPIC", "type": "depends"}},
+                                          {"type": "epic", "ts": T, "data": {"id": live, "epic_id": "EPICXX", "ts": T}}]}
+        what = r.pick(sorted(kinds))
+        blob = "".join(json.dumps(x, separators=(",", ":")) + "\n" for x in kinds[what])
+        with open(st.log_path(), "ab") as f:
+            f.write(blob.encode())
+        trace = trace + [{"edit": "lines appended to the log (%s)" % what, "bytes": blob}]
+        cmds = READS + [["--json", "show", live], ["show", live], ["--json", "list", "--epic", "EPICXX"], ["--json", "--agent", "probe", "claim"], ["--json", "compact"], ["--json", "list", "--all"]]
+        for argv in cmds:
+            rr = st.exec(argv, timeout=8)
+            ctx.count(1, key=("dangling", what, " ".join(a for a in argv if a != live), rr["exit"] == 0))
+            if rr.get("timeout") or rr["exit"] not in (0, 1) or PANIC.search(rr["stderr"]):
+                ctx.violation("C12 crash on a log with a dangling reference (%s)" % what, "%s exited %s: %s" % (" ".join(argv), rr["exit"], rr["stderr"][-300:]),
+                              {"trace": trace + [{"argv": argv, "stdin": None, "exit": rr["exit"]}]}); return
+    finally:
+        st.close()
+
+
 def equal_created_at(ctx):
     """the hand-merged shape: two epics with the same created_at — listing order must still be a function of the log"""
     st = cmdrun.Store(ctx.ergo, ctx.go)
@@ -312,6 +350,8 @@ def run(ctx):
     cyclic_log(ctx)
     read_programs(ctx)
     r = gen.Rng(ctx.seed * 1000003 + 12)
+    for i in range(5 if ctx.quick else 100):
+        dangling_references(ctx, r.fork())
     for i in range(16 if ctx.quick else 300):
         total_and_deterministic(ctx, r.fork())
     for i in range(6 if ctx.quick else 80):
